@@ -159,17 +159,64 @@ def run(ctx):
                key="R07.5:rtosc_valid_message_p:unguarded-read",
                what="rtosc_valid_message_p reads a byte of msg at %s before len has been compared" % r.where())
 
-    _scan_form_obligations(ctx, u)
     # ---- R07.6
-    tabs = C01.tables(ctx, u)
-    ring = tabs["rtosc_message_ring_length"]
-    for other in ("arg_size", "extract_arg"):
-        ot = tabs[other]
-        for tag in sorted(C01.SPEC):
-            a = ring[0].get(tag, ring[1])
-            b = ot[0].get(tag, ot[1])
-            ctx.ob("R07.6", "ring_length vs %s ['%s']" % (other, tag), a == b, site=ring[2], detail={"validator": a, other: b},
-                   what="tag '%s': the validator accounts for %s, %s consumes %s" % (tag, a, other, b))
+    # (a) by shape, where validator and readers are a tag switch in a loop ...
+    try:
+        _scan_form_obligations(ctx, u)
+        tabs = C01.tables(ctx, u)
+        ring = tabs["rtosc_message_ring_length"]
+        for other in ("arg_size", "extract_arg"):
+            ot = tabs[other]
+            for tag in sorted(C01.SPEC):
+                a = ring[0].get(tag, ring[1])
+                b = ot[0].get(tag, ot[1])
+                ctx.ob("R07.6", "ring_length vs %s ['%s']" % (other, tag), a == b, site=ring[2], detail={"validator": a, other: b},
+                       what="tag '%s': the validator accounts for %s, %s consumes %s" % (tag, a, other, b))
+    except AnalysisBroken as e_shape:
+        ctx.notes.append("R07.6 by shape not possible (%s): decided by evaluation only" % e_shape)
+    # (b) ... and by evaluation, however they are written: on probe messages (whole, split over two ring segments at
+    # several places, followed by other bytes, cut short) the validator returns the length the specification gives, the
+    # readers find every argument at its specified offset, and on a string argument whose first byte is NUL (hostile)
+    # validator and readers still agree where the next argument lies
+    from ..rules import oscref as OR
+    from .. import fdeval as FD
+    groups = {}
+    for adr, ty, va in OR.PROBES:
+        groups.setdefault(adr if adr in ("/p", "/s", "/b", "/t", "/x", "/y") else "addresses", []).append((adr, ty, va))
+    names = {"/p": "fixed-width tags", "/s": "strings", "/b": "blobs", "/t": "tags without payload", "/x": "arrays and all tags", "/y": "several arguments", "addresses": "address lengths"}
+    fring = u.function("rtosc_message_ring_length")
+    for g, probes in sorted(groups.items()):
+        bad = []
+        for adr, ty, va in probes:
+            data, _slots = OR.layout(adr, ty, va)
+            try:
+                lens = {"whole": OR.ring_length(u, data), "split after 1": OR.ring_length(u, data, split=1),
+                        "split 3 before the end": OR.ring_length(u, data, split=len(data) - 3),
+                        "followed by other bytes": OR.ring_length(u, data + b"/AB"), "cut short by 4": OR.ring_length(u, data, cap=len(data) - 4)}
+                rb = OR.reader_checks(u, adr, ty, va)
+            except FD.Unknown as e:
+                raise AnalysisBroken("R07.6: validator / readers not evaluable on (%r, %r): %s" % (adr, ty, e))
+            want = {k_: (len(data) if k_ != "cut short by 4" else 0) for k_ in lens}
+            if lens != want or rb:
+                bad.append({"address": adr, "types": ty, "validator": {k_: v_ for k_, v_ in lens.items() if v_ != want[k_]}, "specified_length": len(data), "readers": rb[:2]})
+        ctx.ob("R07.6", "probe messages: %s" % names[g], not bad, site=A.where(fring), detail={"messages": len(probes), "mismatches": bad[:3]},
+               key="R07.6:evaluated:%s" % names[g],
+               what="validator and readers, evaluated on probe messages (%s), do not agree with the specified layout: %s" % (names[g], bad[:2]))
+    # hostile strings: first byte NUL, then non-zero bytes up to the next NUL
+    badh = []
+    for body in (b"\0abc" + b"de\0\0", b"\0ab\0", b"\0\0\0\0", b"\0abcdefg" + b"\0\0\0\0"):
+        data = OR.enc_str("/s") + OR.enc_str(",si") + body + bytes([1, 2, 3, 4])
+        try:
+            v = OR.ring_length(u, data + b"\0\0\0\0\0\0\0\0")
+            r = OR._reader_eval(u, "rtosc_argument", [OR.MSG, 1], OR._Bytes(data + b"\0" * 8), stop_at="extract_arg")
+        except FD.Unknown as e:
+            raise AnalysisBroken("R07.6: validator / readers not evaluable on a hostile string: %s" % e)
+        off = r[1][0] - OR.MSG if isinstance(r, tuple) and r[0] == "stopped" and isinstance(r[1][0], int) else None
+        if off is None or (v != 0 and v != off + 4):
+            badh.append({"string_bytes": body.hex(), "validator_length": v, "readers_place_the_next_argument_at": off})
+    ctx.ob("R07.6", "string whose first byte is NUL", not badh, site=A.where(fring), detail={"mismatches": badh},
+           key="R07.6:evaluated:hostile string",
+           what="validator and readers end a string argument whose first byte is NUL at different places: %s - a message the validator accepts is then decoded at other offsets" % badh[:2])
 
 
 def _contains(root, node):
